@@ -404,12 +404,148 @@ def run(ck, only=None):
                 longdouble = False
                 ck.violation(f"{f.cid()} name={f.name if not f.name.startswith('K') else 'K'} opt={oname} {what}",
                              {"cid": f.cid(), "name": f.name, "opt": oname, "why": f"{what}: {why}; prototype: {f.proto()}"})
+    if not only or only.get("cpp"):
+        cpp_part(ck)
+    if only and only.get("cpp"):
+        return
     ck.sample({"signature": fns[min(len(fns) - 1, 200)].cid(), "prototype": fns[min(len(fns) - 1, 200)].proto()})
     ck.extra["functions"] = len(fns)
     ck.extra["libraries"] = len(libs)
     ck.extra["option_rows"] = len(opts)
-    ck.assume("host ABI (SysV x86-64) only; long double is not in the alphabet (Rust has no 80-bit float: recorded separately); C++ methods and "
-              "foreign-target symbol decoration of the design are not built")
+    ck.assume("host ABI (SysV x86-64) only; long double is not in the alphabet (Rust has no 80-bit float: recorded separately); foreign-target symbol decoration of the design is not built")
+
+
+CPP_H = r"""
+extern unsigned long long g_hash;
+namespace geo {
+struct Vec { int x; double y; Vec(); Vec(int x, double y); ~Vec(); int sum() const; int add(int d); static int make_count(); Vec scaled(int k) const;
+             int over(int a) const; int over(int a, int b) const; int over(double d) const; };
+int free_fn(const Vec &v, Vec *out);
+int take(Vec v, int k);
+}
+class Counter { public: Counter(int start); virtual ~Counter(); virtual int bump(int by); int value() const; int value(int scale) const; static int live; private: int v; };
+struct Pod3 { char a, b, c; }; Pod3 rot(Pod3 p);
+struct Pt { int x, y; Pt(int x, int y); Pt plus(int d) const; static Pt origin(); };
+struct Base { int a; int geta() const; }; struct Der : Base { int k; int total() const; };
+bool is_neg(long long v); unsigned char uch(unsigned char c, signed char s, char16_t w);
+"""
+CPP_CC = r"""
+#include "cls.hpp"
+unsigned long long g_hash;
+namespace geo {
+static int made = 0;
+Vec::Vec() : x(7), y(0.5) { made++; }
+Vec::Vec(int x_, double y_) : x(x_), y(y_) { made++; }
+Vec::~Vec() { g_hash = 0xdead0000ull + (unsigned)x; }
+int Vec::sum() const { return x + (int)(y * 2); }
+int Vec::add(int d) { x += d; return x; }
+int Vec::make_count() { return made; }
+Vec Vec::scaled(int k) const { return Vec(x * k, y * k); }
+int Vec::over(int a) const { return x + a; }
+int Vec::over(int a, int b) const { return x + a * b; }
+int Vec::over(double d) const { return x + (int)(d * 10); }
+int free_fn(const Vec &v, Vec *out) { out->x = v.x + 1; out->y = v.y + 1; return v.x; }
+int take(Vec v, int k) { return v.x + (int)(v.y * 2) + k; }
+}
+Pt::Pt(int x_, int y_) : x(x_), y(y_) {}
+Pt Pt::plus(int d) const { return Pt(x + d, y + d); }
+Pt Pt::origin() { return Pt(0, 0); }
+int Base::geta() const { return a; }
+int Der::total() const { return a + k; }
+int Counter::live = 0;
+Counter::Counter(int start) : v(start) { live++; }
+Counter::~Counter() { live--; }
+int Counter::bump(int by) { v += by; return v; }
+int Counter::value() const { return v; }
+int Counter::value(int scale) const { return v * scale; }
+Pod3 rot(Pod3 p) { Pod3 r = { p.b, p.c, p.a }; return r; }
+bool is_neg(long long v) { return v < 0; }
+unsigned char uch(unsigned char c, signed char s, char16_t w) { return (unsigned char)(c + s + w); }
+"""
+CPP_TESTS = [
+ ("ctor-args", "let v = b::geo_Vec::new1(3, 2.5); ok(v.x == 3 && v.y == 2.5);"),
+ ("default-ctor", "let d = b::geo_Vec::new(); ok(d.x == 7 && d.y == 0.5);"),
+ ("const-method", "let v = b::geo_Vec::new1(3, 2.5); ok(v.sum() == 8);"),
+ ("mut-method", "let mut v = b::geo_Vec::new1(3, 2.5); ok(v.add(4) == 7 && v.x == 7);"),
+ ("static-method", "let a = b::geo_Vec::make_count(); let _v = b::geo_Vec::new(); let _w = b::geo_Vec::new1(1, 1.0); ok(a == 0 && b::geo_Vec::make_count() == 2);"),
+ ("overloads", "let v = b::geo_Vec::new1(7, 2.5); ok(v.over(1) == 8 && v.over1(2, 3) == 13 && v.over2(1.5) == 22);"),
+ ("reference-params", "let v = b::geo_Vec::new1(7, 2.5); let mut out: b::geo_Vec = std::mem::zeroed(); ok(b::geo_free_fn(&v, &mut out) == 7 && out.x == 8 && out.y == 3.5);"),
+ ("destructor", "let mut v = b::geo_Vec::new1(7, 2.5); v.destruct(); ok(b::g_hash == 0xdead0000u64 + 7);"),
+ ("nontrivial-class-result", "let v = b::geo_Vec::new1(7, 2.5); let s = v.scaled(2); ok(s.x == 14 && s.y == 5.0);"),
+ ("nontrivial-class-argument", "let v = b::geo_Vec::new1(7, 2.5); ok(b::geo_take(v, 3) == 7 + 5 + 3);"),
+ ("static-member", "let a = b::Counter_live; let _c = b::Counter::new(10); ok(a == 0 && b::Counter_live == 1);"),
+ ("virtual-method", "let mut c = b::Counter::new(10); ok(b::Counter_bump(&mut c as *mut _ as *mut _, 5) == 15 && c.value() == 15);"),
+ ("overloaded-const-method", "let c = b::Counter::new(10); ok(c.value() == 10 && c.value1(3) == 30);"),
+ ("virtual-destructor", "let mut c = b::Counter::new(10); b::Counter_Counter_destructor(&mut c); ok(b::Counter_live == 0);"),
+ ("small-struct", "let r = b::rot(b::Pod3 { a: 1, b: 2, c: 3 }); ok((r.a, r.b, r.c) == (2, 3, 1));"),
+ ("trivial-class-result", "let p = b::Pt::new(3, 4); let q = p.plus(2); ok(q.x == 5 && q.y == 6 && b::Pt_origin().x == 0);"),
+ ("bool-result", "ok(b::is_neg(-1) && !b::is_neg(5));"),
+ ("char-kinds", "ok(b::uch(200, -100, 7) == 107);"),
+ ("base-method", "let mut d: b::Der = std::mem::zeroed(); d._base.a = 5; d.k = 9; ok(d.total() == 14 && b::Base_geta(&d._base) == 5);"),
+ ("operator-and-conversion-skipped", "ok(true);"),
+]
+CPP_RS = r"""
+#![allow(warnings)]
+mod b { include!("@B@"); }
+fn ok(c: bool) { if !c { println!("BAD"); } }
+fn main() {
+  let which = std::env::args().nth(1).unwrap();
+  unsafe {
+    match which.as_str() {
+@ARMS@
+      _ => { println!("BAD unknown test"); }
+    }
+  }
+  println!("DONE");
+}
+"""
+
+
+def cpp_part(ck):
+    """C++ classes linked against a clang++ object: methods, static methods, constructors (MaybeUninit protocol), destructors,
+    overloads, references, static members."""
+    wd = os.path.join(ck.wd, "cpp")
+    os.makedirs(wd, exist_ok=True)
+    open(os.path.join(wd, "cls.hpp"), "w").write(CPP_H)
+    open(os.path.join(wd, "cls.cc"), "w").write(CPP_CC)
+    rc, _, err = common.clang(["-x", "c++", "-std=c++14", "-O1", "-w", "-c", "cls.cc", "-o", "cls.o"], cwd=wd)
+    common.guard(rc == 0, "C04 C++ library does not compile: " + err[:400])
+    rows = [("default", []), ("merge-sort", ["--merge-extern-blocks", "--sort-semantically"]), ("namespaces", ["--enable-cxx-namespaces"]),
+            ("rust170", ["--rust-target", "1.70"]), ("wrap-unsafe", ["--wrap-unsafe-ops"])]
+    jobs = [{"id": n, "args": [os.path.join(wd, "cls.hpp"), "--no-layout-tests"] + fl + ["--", "-x", "c++", "-std=c++14"]} for n, fl in rows]
+    res = common.run_jobs(jobs, wd, timeout=120)
+    for n, fl in rows:
+        ck.count()
+        ck.nontriv(("cpp", n))
+        r = res[n]
+        det = {"cpp": True, "opt": n}
+        if r["status"] != "ok":
+            ck.violation(f"cpp-classes opt={n} generation-failed", dict(det, why=str(r)[:200]))
+            continue
+        bp = os.path.join(wd, f"b_{n.replace('-', '_')}.rs")
+        open(bp, "w").write(r["text"])
+        arms = "\n".join(f'      "{t}" => {{ {code} }}' for t, code in CPP_TESTS)
+        src = CPP_RS.replace("@B@", bp).replace("@ARMS@", arms)
+        if n == "namespaces":
+            src = src.replace("mod b { include!", "mod b0 { include!").replace("fn ok(", "use b0::root as b;\nuse b0::root::geo as g;\nfn ok(")
+            src = re.sub(r"b::geo_(\w+)", r"g::\1", src)
+        mp = os.path.join(wd, f"main_{n.replace('-', '_')}.rs")
+        open(mp, "w").write(src)
+        exe = os.path.join(wd, f"exe_{n.replace('-', '_')}")
+        ok, err = common.rustc_bin(mp, exe, opt=False, extra=["-C", f"link-arg={os.path.join(wd, 'cls.o')}", "-C", "link-arg=-lstdc++"])
+        if not ok:
+            m = re.search(r"error(\[E\d+\])?: (.*)", err)
+            ck.violation(f"cpp-classes opt={n} caller-does-not-build", dict(det, why=(m.group(0) if m else err[:300])))
+            continue
+        for t, _ in CPP_TESTS:
+            ck.count()
+            ck.nontriv(("cpp", n, t))
+            p = common.sh([exe, t], timeout=60)
+            out = p.stdout.decode()
+            if p.returncode != 0 or "DONE" not in out:
+                ck.violation(f"cpp-classes opt={n} test={t} caller-crashed", dict(det, why=f"exit {p.returncode}"))
+            elif "BAD" in out:
+                ck.violation(f"cpp-classes opt={n} test={t} wrong-value", dict(det, why=f"the values observed through the bindings differ from the C++ definition's ({t})"))
 
 
 def replay(ck, case, detail):
